@@ -73,13 +73,14 @@ type scn = {
   mutable mutex : bool;
   mutable vars : vline list;     (* reversed *)
   mutable groups : cmd list list; (* reversed groups, each reversed *)
+  mutable gnames : n list option list; (* reversed: optional name of each group *)
   mutable extra : cmd list;      (* reversed *)
   mutable scripts : (hkey * hres list) list; (* reversed *)
   mutable rd : bool list; mutable wr : bool list; mutable lk : bool list; mutable ul : bool list;
 }
 
 let new_scn () = { name = ""; cap = 1; buf_size = 64; ubuf_size = -1; fill = 0; mutex = false;
-                   vars = []; groups = []; extra = []; scripts = [];
+                   vars = []; groups = []; gnames = []; extra = []; scripts = [];
                    rd = []; wr = []; lk = []; ul = [] }
 
 let split_ws (s : string) : string list =
@@ -301,6 +302,9 @@ let run_scenario (sc : scn) (ops : string list list) : unit =
       | [ "sc"; hx ] ->
         (match search_command_by_name d (bytes_of_hex hx) with
          | Some i -> pr "= sc %d\n" (int_of_nat i) | None -> pr "= sc -1\n")
+      | [ "sg"; hx ] ->
+        (match search_group_by_name (List.rev sc.gnames) (bytes_of_hex hx) with
+         | Some i -> pr "= sg %d\n" (int_of_nat i) | None -> pr "= sg -1\n")
       | [ "sv"; ci; hx ] ->
         (match List.nth_opt (List.concat d.d_groups @ d.d_extra) (ios ci) with
          | Some c -> (match search_variable_by_name c (bytes_of_hex hx) with
@@ -347,11 +351,12 @@ let () =
           !sc.vars <- { vl_type = ios ty; vl_size = ios sz; vl_access = ios acc; vl_hr = (hr = "1");
                         vl_hw = (hw = "1"); vl_name = opt_bytes_of_hex nm;
                         vl_init = bytes_of_hex init } :: !sc.vars
-        | [ "grp" ] -> !sc.groups <- [] :: !sc.groups
+        | [ "grp" ] -> !sc.groups <- [] :: !sc.groups; !sc.gnames <- None :: !sc.gnames
+        | [ "grp"; nm ] -> !sc.groups <- [] :: !sc.groups; !sc.gnames <- opt_bytes_of_hex nm :: !sc.gnames
         | "cmd" :: rest ->
           (match !sc.groups with
            | g :: gs -> !sc.groups <- (mk_cmd !sc rest :: g) :: gs
-           | [] -> !sc.groups <- [ [ mk_cmd !sc rest ] ])
+           | [] -> !sc.groups <- [ [ mk_cmd !sc rest ] ]; !sc.gnames <- [ None ])
         | "xcmd" :: rest -> !sc.extra <- mk_cmd !sc rest :: !sc.extra
         | [ "script"; kind; ci; vi ] ->
           flush_script ();
